@@ -917,7 +917,8 @@ fn gen_case_c37(idx: u64, g: &mut Gen, rec: &mut Recorder) {
     let (mut q, mut q2, mut m, mut m2) = (vec![], vec![], vec![], vec![]);
     if kind.keyed() {
         let nk = size.min(3);
-        m = g.map(nk, if nk >= 3 { 2 } else { 3 }, true);
+        // KeyedSingleton: an empty buffer for a never-released key cannot arise (and panics mid-search)
+        m = g.map(nk, if nk >= 3 { 2 } else { 3 }, kind != Kind::KeyedSingleton);
         if kind.two() {
             let n2 = g.rng.below(3) as usize;
             m2 = g.map(n2, 2, true);
@@ -1001,7 +1002,11 @@ fn main() {
                     let start = rec.ops.len();
                     let istart = rec.imp.len();
                     g.keyed_bias = true;
+                    // the C36 oracles are not C38's property (a panic is a verdict that must replay too)
+                    let (plen, pf) = (rec.prop.len(), rec.prop_failures);
                     gen_case_c36(idx, &mut g, &mut rec, 0);
+                    rec.prop.truncate(plen);
+                    rec.prop_failures = pf;
                     replay_oracle(&mut rec, start, istart);
                 }
                 _ => gen_case_c36(idx, &mut g, &mut rec, a.cases),
